@@ -3860,8 +3860,11 @@ class TLSConnection(TLSRecordLayer):
                         AlertDescription.illegal_parameter,
                         "Received invalid value in Heartbeat extension"):
                     yield result
-            self.heartbeat_supported = True
-            self.heartbeat_can_receive = True
+            # the extension is echoed to the client only when it is enabled
+            # in settings, heartbeat is negotiated only then
+            if settings.use_heartbeat_extension:
+                self.heartbeat_supported = True
+                self.heartbeat_can_receive = True
 
         size_limit_ext = clientHello.getExtension(
             ExtensionType.record_size_limit)
